@@ -1,11 +1,14 @@
 #!/bin/bash
 # usage: bin/seedtest.sh <seed-dir-name> [property] [tier]  — apply /verif/seeded/<name>/patch.diff to /repo, run the check, revert.
+# The evidence file of the property is put back afterwards (committed evidence describes the unchanged tree).
 set -u
 name=$1; prop=${2:-${name%%-*}}; tier=${3:-quick}
 cd /repo || exit 2
 if [ -n "$(git status --porcelain)" ]; then echo "/repo not clean"; exit 2; fi
 git apply /verif/seeded/$name/patch.diff || { echo "patch does not apply"; exit 2; }
+keep=$(mktemp); cp /verif/evidence/$prop.json $keep 2>/dev/null
 cd /verif && bin/gosym check $prop --tier $tier; rc=$?
-git -C /repo checkout -- . 
+git -C /repo checkout -- .
+[ -s $keep ] && cp $keep /verif/evidence/$prop.json; rm -f $keep
 echo "seedtest $name property=$prop exit=$rc"
 exit $rc
